@@ -317,6 +317,9 @@ func c15LargeOps() []c15LargeOp {
 func runC15Large(c *explore.Ctx) {
 	ops := c15LargeOps()
 	maxLen := 2
+	if c.Thorough() {
+		maxLen = 3
+	}
 	scope := fmt.Sprintf("SEQ-LARGE(<=%d of %d ops)", maxLen, len(ops))
 	var idx int64
 	for n := 1; n <= maxLen; n++ {
